@@ -163,7 +163,9 @@ class Whitener(Transformer):
             return X
         else:
             X = X.rename({self.feature_name: "mode"})
-            return xr.dot(X, self.Tinv, dims="mode")
+            reconstructed = xr.dot(X, self.Tinv, dims="mode")
+            reconstructed.name = X.name
+            return reconstructed
 
     def transform_components(self, X: DataArray) -> DataArray:
         """Transform 2D components (feature x mode) into whitened space."""
@@ -175,6 +177,7 @@ class Whitener(Transformer):
             VS = self.T.conj().T
             VS = VS.rename({"mode": dummy_dim})
             transformed = xr.dot(VS, X, dims=self.feature_name)
+            transformed.name = X.name
             return transformed.rename({dummy_dim: self.feature_name})
 
     def inverse_transform_components(self, X: DataArray) -> DataArray:
@@ -187,7 +190,9 @@ class Whitener(Transformer):
             comps_pc_space = X.rename({self.feature_name: dummy_dim})
             VS = self.Tinv.conj().T
             VS = VS.rename({"mode": dummy_dim})
-            return xr.dot(VS, comps_pc_space, dims=dummy_dim)
+            comps = xr.dot(VS, comps_pc_space, dims=dummy_dim)
+            comps.name = X.name
+            return comps
 
     def inverse_transform_scores(self, X: DataArray) -> DataArray:
         """Transform 2D scores (sample x mode) from whitened space back into original space."""
